@@ -680,13 +680,28 @@ static void cmd_audit(const std::vector<std::string> &tk)
     s << " ut=" << utotal;
     s << " roots=";
     for (size_t i=0; i<roots.size(); i++) { if (i) s << ","; s << roots[i]; }
+    if (roots.empty()) s << "-";
+    s << " rel=" << (fi.rel ? 1 : 0) << " rule=" << (fi.rr == reduction_rule::FULLY_REDUCED ? "fr"
+            : fi.rr == reduction_rule::QUASI_REDUCED ? "qr" : "ir")
+      << " K=" << F->getNumVariables()
+      << " lab=" << (fi.el == edge_labeling::MULTI_TERMINAL ? "mt" : fi.el == edge_labeling::EVTIMES ? "evt" : "evp")
+      << " del=" << (F->getPolicies().isPessimistic() ? "pess" : F->getPolicies().isOptimistic() ? "opt" : "never");
     s << " ;";
+    std::vector<unsigned long> ctcounts(size_t(last)+2, 0);
+    compute_table::countAllNodeEntries(F, ctcounts);
     for (node_handle p=1; p<=last; p++) {
-        if (!F->isActiveNode(p)) continue;
+        if (!F->isActiveNode(p)) {
+            unsigned long cc = F->verif_cacheCount(p);
+            if (cc || ctcounts[p]) {
+                s << " Z" << p << " cc=" << cc << " ce=" << ctcounts[p] << " ;";
+            }
+            continue;
+        }
         ++active;
         s << " " << p << "@" << F->getNodeLevel(p)
           << " in=" << F->getNodeInCount(p)
-          << " cc=" << F->verif_cacheCount(p);
+          << " cc=" << F->verif_cacheCount(p)
+          << " ce=" << ctcounts[p];
         unpacked_node* Uf = unpacked_node::newFromNode(F, p, FULL_ONLY);
         unpacked_node* Us = unpacked_node::newFromNode(F, p, SPARSE_ONLY);
         Uf->computeHash();
